@@ -6,7 +6,11 @@ sys.path.insert(0, os.path.join(V, "lib"))
 checks = []
 na = []
 ids = [json.loads(l)["id"] for l in open(os.path.join(V, "properties.jsonl"))]
+integrated = set(open(os.path.join(V, "lib", "integrated.txt")).read().split())
 for pid in ids:
+    if pid not in integrated:
+        na.append({"property_id": pid, "reason": "check under construction (model/harness being built; not yet run against /repo by the coordinator); see DESIGN.md"})
+        continue
     if not os.path.exists(os.path.join(V, "lib", "props", pid + ".py")):
         na.append({"property_id": pid, "reason": "check not built yet (work in progress; see DESIGN.md)"})
         continue
